@@ -51,6 +51,11 @@ func c01Round12Facts(repo string) (string, error) {
 		}
 		sb.WriteString("def " + p[1] + " : List String := " + LeanStrList(CallSeq(fd)) + "\n")
 	}
+	sw := FindFunc(ew, "bufioStreamWriter", "Write")
+	if sw == nil {
+		return "", fmt.Errorf("bufioStreamWriter.Write not found")
+	}
+	sb.WriteString("def streamWriterWriteCalls : List String := " + LeanStrList(CallSeq(sw)) + "\n")
 	nw := FindFunc(ew, "", "newBufioEntryWriter")
 	if nw == nil {
 		return "", fmt.Errorf("newBufioEntryWriter not found")
